@@ -124,10 +124,26 @@ type BObj struct {
 const maxReadDepth = 400
 
 func (e *Exec) bread(o *BObj, upto int, i *Term) *Term {
+	return e.breadS(o, upto, i, nil)
+}
+
+// breadS: seen = index terms of newer single stores already on the ite chain
+// (an older store to the syntactically same index is shadowed).
+func (e *Exec) breadS(o *BObj, upto int, i *Term, seen []*Term) *Term {
 	tb := e.tb
 	for k := upto - 1; k >= 0; k-- {
 		en := &o.log[k]
 		if en.store {
+			shadowed := false
+			for _, sidx := range seen {
+				if sidx == en.idx {
+					shadowed = true
+					break
+				}
+			}
+			if shadowed {
+				continue
+			}
 			eq := tb.Cmp(OEq, i, en.idx)
 			if eq.isTrue() {
 				return en.val
@@ -135,9 +151,10 @@ func (e *Exec) bread(o *BObj, upto int, i *Term) *Term {
 			if eq.isFalse() {
 				continue
 			}
-			return tb.Ite(eq, en.val, e.bread(o, k, i))
+			return tb.Ite(eq, en.val, e.breadS(o, k, i, append(seen[:len(seen):len(seen)], en.idx)))
 		}
-		in := tb.And(tb.Cmp(OSle, en.d, i), tb.Cmp(OSlt, i, tb.Bin(OAdd, en.d, en.n)))
+		// i in [d, d+n)  <=>  (i - d) <u n   (d, n >= 0 and d+n does not overflow: they describe a slice)
+		in := tb.Cmp(OUlt, tb.Bin(OSub, i, en.d), en.n)
 		if in.isFalse() {
 			continue
 		}
@@ -145,7 +162,7 @@ func (e *Exec) bread(o *BObj, upto int, i *Term) *Term {
 		if in.isTrue() {
 			return sv
 		}
-		return tb.Ite(in, sv, e.bread(o, k, i))
+		return tb.Ite(in, sv, e.breadS(o, k, i, seen))
 	}
 	if o.base != "" {
 		return tb.Select(o.base, i)
@@ -187,8 +204,8 @@ func (e *Exec) bcopy(dst *BObj, d *Term, src *BObj, so *Term, n *Term) {
 	if n.isConst() && n.k == 0 {
 		return
 	}
-	// small concrete copies become single stores (keeps reads simple)
-	if n.isConst() && n.k <= 32 {
+	// very small concrete copies become single stores
+	if n.isConst() && n.k <= 2 {
 		vals := make([]*Term, n.k)
 		for j := range vals {
 			vals[j] = e.bread(src, len(src.log), e.tb.Bin(OAdd, so, e.tb.K(64, uint64(j))))
